@@ -127,6 +127,7 @@ func checkC01(c *Ctx) error {
 	r.Assumptions = []string{"the reference interpreter is the rig's reading of the semantics stated by the property", "constructs whose meaning is not pinned (division by 0 / of MIN by -1, short-circuit evaluation, out-of-range casts) are not generated", "features gated by open findings in known_findings.json are exercised only by their pinned probes"}
 	n := c.N(70, 1500)
 	runProbes(c, "C01", core.Native)
+	runMatrix(c, core.Native)
 	gates := gatedFeatures(c)
 	r.Set("gated_features", keysOf(gates))
 	featHist := map[string]int{}
@@ -248,5 +249,53 @@ func runProbes(c *Ctx, prop string, target core.Target) {
 		}
 		r.Nontrivial(id + src)
 		r.Count("probes_ok", 1)
+	})
+}
+
+// runMatrix compiles and runs the deterministic matrix programs for one target and compares them
+// with the reference interpreter.
+func runMatrix(c *Ctx, target core.Target) {
+	r := c.R
+	progs := matrixPrograms()
+	core.ParDo(len(progs), 5, func(k int) {
+		mp := progs[k]
+		if target == core.Wasm && !mp.wasmOK {
+			return
+		}
+		id := "matrix:" + mp.name
+		if target == core.Wasm {
+			id += "@wasm"
+		}
+		src := mp.p.Source()
+		exp := gen.Run(mp.p)
+		r.Eval()
+		if exp.Internal != "" || exp.Timeout || exp.FellOff != "" || exp.Panic != "" {
+			r.Fail(core.Failure{Case: id, Signature: "HARNESS matrix program / interpreter bug", Detail: fmt.Sprintf("internal=%q timeout=%v felloff=%q panic=%q\n%s", exp.Internal, exp.Timeout, exp.FellOff, exp.Panic, core.Short(src, 3000)), Replay: src})
+			return
+		}
+		pr, err := buildAndRun(c, "matrix-"+string(target), k, src, target, false)
+		if err != nil {
+			r.Inconclusive(err.Error())
+			return
+		}
+		if !pr.Compile.Accepted() {
+			sig := "matrix-program-rejected: " + core.Short(pr.Compile.FirstError(), 80)
+			if pr.Compile.Crash != "" {
+				sig = "compiler-crash: " + pr.Compile.Crash
+			}
+			r.Fail(core.Failure{Case: id, Signature: sig, Detail: core.Short(core.StripANSI(pr.Compile.Proc.Stderr), 1500), Replay: src})
+			return
+		}
+		if pr.Run.Kind == core.RunTimeout || pr.Run.Kind == core.RunError {
+			r.Inconclusive(fmt.Sprintf("%s: run %s", id, pr.Run.Kind))
+			return
+		}
+		if sig, det := compareWithReference(exp, pr.Run); sig != "" {
+			r.Fail(core.Failure{Case: id, Signature: sig, Detail: det, Replay: src})
+			return
+		}
+		r.Nontrivial(src)
+		r.Count("matrix_programs_equal", 1)
+		r.Count("matrix_lines_compared", len(exp.Lines))
 	})
 }
